@@ -394,15 +394,24 @@ func TestCases(t *testing.T) {
 			line := s.cat(c.In)
 			for li, lx := range []*verifhooks.Lexer{verifhooks.NewLexer(0), pooled, pooled2} {
 				ns := []string{"", "ns", "n.s"}[(idx+li+v)%3]
-				o := runLexer(lx, line, ns)
+				cc, ln := &c, line
+				if c.Exp.K == "metric" && (idx+v)%4 == 3 {
+					// "all namespaces" includes one the name itself starts with: the prefix is added all the same
+					c2 := c
+					c2.In = append([]string{"q7."}, c.In...)
+					c2.Exp.Name = append([]string{"q7."}, c.Exp.Name...)
+					cc, ln, ns = &c2, "q7."+line, "q7"
+					res.Hit("namespace-is-name-prefix")
+				}
+				o := runLexer(lx, ln, ns)
 				res.Eval(false)
-				rec := map[string]any{"line": line, "tokens": c.In, "namespace": ns, "expect": c.Exp.K, "case": idx}
+				rec := map[string]any{"line": ln, "tokens": cc.In, "namespace": ns, "expect": c.Exp.K, "case": idx}
 				if o.panicked != "" {
-					res.Fail("C03", "lexer-panic:"+c.St, fmt.Sprintf("lexer panicked on %q: %s", line, o.panicked), rec)
+					res.Fail("C03", "lexer-panic:"+c.St, fmt.Sprintf("lexer panicked on %q: %s", ln, o.panicked), rec)
 					continue
 				}
-				if sig, d := judge(&c, s, o, ns); sig != "" {
-					res.Fail("C02", sig, fmt.Sprintf("line %q (namespace %q): %s", line, ns, d), rec)
+				if sig, d := judge(cc, s, o, ns); sig != "" {
+					res.Fail("C02", sig, fmt.Sprintf("line %q (namespace %q): %s", ln, ns, d), rec)
 				}
 			}
 			if len(c.In) >= 2 {
